@@ -26,6 +26,7 @@ RULE = ('case = one accepted generated document; every view of every repeated fi
         'pop with default, setdefault, update, popitem) are compared with an ordered dict with first-match lookup given the same call: keys '
         'afterwards, the value stored under the key, the result of the call. Non-trivial = the step changed the raw list; distinct = '
         'hash(family, initial list, op-log prefix).')
+RULE += (' Also (rounds 8-11): deep copies of views (edits through the copy show in it, the original is untouched), window permutations (deep copies of 2..4 neighbouring raw elements assigned back shuffled), elements assigned back to their own position through node views.')
 ASSUMPTIONS = ['documented refusals (length-changing slice assignment through a filtered view, extended-slice size mismatch, missing key, '
                'out-of-range index) are expected exceptions; what they leave behind is C19\'s question']
 
